@@ -39,13 +39,13 @@ import (
 // ---------------------------------------------------------------- recorder
 
 type Recorder struct {
-	mu     sync.Mutex
-	events []map[string]any
-	byGo   map[uint64]string // goroutine -> conn id (set at conn.start)
-	byPort map[int]string    // remote port -> conn id
-	gates  map[string]chan struct{}
+	mu      sync.Mutex
+	events  []map[string]any
+	byGo    map[uint64]string // goroutine -> conn id (set at conn.start)
+	byPort  map[int]string    // remote port -> conn id
+	gates   map[string]chan struct{}
 	aborted map[string]bool
-	hit    map[string]chan struct{}
+	hit     map[string]chan struct{}
 }
 
 func NewRecorder() *Recorder {
